@@ -143,6 +143,12 @@ def run(ctx: Ctx) -> None:
             except ImplError:
                 continue
             hugrs.append((f"hist:{k}", ad.h[1]))
+        # programs of the builder state machine (random walks of HugrBuilder.tla replayed on the real builders)
+        from . import builder_model
+        mh = builder_model.model_hugrs(wd, ctx.seed, 6 if quick else 60)
+        for name, h, _hist in mh[: (60 if quick else 1200)]:
+            hugrs.append((name, h))
+        ctx.note("builder_model_programs_rendered", min(len(mh), 60 if quick else 1200))
         pairs = []
         from hugr.hugr.render import DotRenderer
         shared = DotRenderer()
